@@ -27,6 +27,11 @@ Three facts, regenerated from the source under test on every run:
    modelled state (`stateAttrs`); an attribute outside that list (a parked cache key, a parked agent output) makes
    `c07_request_state_is_local` fail: under overlapping requests it would be overwritten by the other request.
 
+5. `rendered`: for every row of (1), whether `_apply_gate_logic` RENDERED the executor's / the assessor's payload
+   (`str()`, an f-string, `repr()`), observed with tracer payload objects.  A payload that is rendered and cannot be
+   (its `__str__` raises) makes the gate raise outside the handler of `run` — the model's `renders` / `renderFails` /
+   `runP` (`c07_renders_table_agrees`).
+
 Fail closed: anything unexpected (import error, unknown action string, counters moving in an unforeseen way,
 a verdict used in another way) yields `ok := false` and empty tables, which makes `c07_gate_table_*` /
 `c08_run_classification_table` fail to check.
@@ -83,8 +88,29 @@ def _mk_loop(L, gate, **kw):
     return loop
 
 
+class TPayload:
+    """a payload that records whether it was rendered"""
+
+    def __init__(self, text):
+        self.text = text
+        self.rendered = False
+
+    def __str__(self):
+        self.rendered = True
+        return self.text
+
+    def __repr__(self):
+        self.rendered = True
+        return repr(self.text)
+
+    def __format__(self, spec):
+        self.rendered = True
+        return format(self.text, spec)
+
+
 def gate_rows(L, T):
     rows, tokens_ok = [], True
+    gate_rows.rendered = []
     gates = list(L.GateLogic)
     if sorted(g.value for g in gates) != sorted(GATE_LEAN):
         raise Unrecognised(f"gate logics {[g.value for g in gates]}")
@@ -93,10 +119,12 @@ def gate_rows(L, T):
             for y in REPS:
                 loop = _mk_loop(L, g)
                 prompt = f"E2 probe {g.value} {z} {y}"
-                zo = T.ActionProtein(TStr(z), "z payload", 0.5)
-                yo = T.ActionProtein(TStr(y), "y payload", 0.5)
+                zp, yp = TPayload("z payload"), TPayload("y payload")
+                zo = T.ActionProtein(TStr(z), zp, 0.5)
+                yo = T.ActionProtein(TStr(y), yp, 0.5)
                 with contextlib.redirect_stdout(io.StringIO()):
                     r = loop._apply_gate_logic(zo, yo, prompt)
+                gate_rows.rendered.append((g.value, z, y, zp.rendered, yp.rendered))
                 if r.action not in ACTION_LEAN or r.action == "CIRCUIT_OPEN":
                     raise Unrecognised(f"action {r.action!r}")
                 if not isinstance(r.success, bool) or not isinstance(r.blocked, bool):
@@ -278,7 +306,7 @@ def carried_state(L, T):
     return sorted(flagged)
 
 
-def render(ok, rows, tokens_ok, lits, shape_ok, rc, carried=None, why="") -> str:
+def render(ok, rows, tokens_ok, lits, shape_ok, rc, carried=None, why="", rendered=()) -> str:
     L = ["import Operon.Model.Cffl",
          "/-! GENERATED by harness/vf/extract/e2.py from operon_ai/topology/loops.py — do not edit.",
          "    Regenerated on every run of the C07 / C08 checks; the committed copy is the snapshot of the clean tree. -/",
@@ -311,6 +339,12 @@ def render(ok, rows, tokens_ok, lits, shape_ok, rc, carried=None, why="") -> str
     L.append("def carried : Option (List String) := "
              + ("none" if carried is None else "some [" + ", ".join(_s(x) for x in carried) + "]"))
     L.append("")
+    L.append("/-- for every row of `rows`: did `_apply_gate_logic` render the executor's / the assessor's payload")
+    L.append("    (observed with tracer payloads on the real code) -/")
+    L.append("def rendered : List (Gate × String × String × Bool × Bool) := [")
+    L.append(",\n".join(f"  ({GATE_LEAN[g]}, {_s(z)}, {_s(y)}, {_b(a)}, {_b(b)})" for (g, z, y, a, b) in rendered))
+    L.append("]")
+    L.append("")
     L.append("end Operon.Gen.GateTable")
     return "\n".join(L) + "\n"
 
@@ -332,7 +366,7 @@ def extract():
             carried = None
             carried_err = f"{type(e).__name__}: {e}"[:200]
         L.datetime = saved_dt
-        text = render(True, rows, tokens_ok, lits, shape_ok, rc, carried)
+        text = render(True, rows, tokens_ok, lits, shape_ok, rc, carried, rendered=gate_rows.rendered)
         note = (f"{len(rows)} gate rows, {len(rc)} run-classification rows, literals {lits}"
                 + (f", OTHER USES of action_type: {sorted(TStr.other)}" if TStr.other else "")
                 + (f", state carried across phases of run(): {carried}" if carried is not None
